@@ -7,6 +7,7 @@ def tokOf (w : String) : Option Tok :=
   if w == "(" then some .lp else if w == ")" then some .rp else if w == "?" then some .q else if w == ":" then some .colon
   else if w.startsWith "a" then (w.drop 1).toString.toNat?.map Tok.atom
   else if w.startsWith "s" then (w.drop 1).toString.toNat?.map Tok.sym
+  else if w.startsWith "e" then (w.drop 1).toString.toNat?.map Tok.asg
   else none
 
 partial def showE : E → String
@@ -16,16 +17,20 @@ partial def showE : E → String
   | .tern c t e => s!"(t {showE c} {showE t} {showE e})"
 
 def showTok : Tok → String
-  | .atom n => s!"a{n}" | .sym s => s!"s{s}" | .lp => "(" | .rp => ")" | .q => "?" | .colon => ":"
+  | .atom n => s!"a{n}" | .sym s => s!"s{s}" | .lp => "(" | .rp => ")" | .q => "?" | .colon => ":" | .asg s => s!"e{s}"
 
-/-- line: tokens separated by blanks (`a<n>`, `s<symbol number>`, `(`, `)`, `?`, `:`): what `Operator(0)` of the model builds with the
+partial def showQ : Q → String
+  | .expr e => showE e
+  | .eq s l r => s!"(e {s} {showE l} {showQ r})"
+
+/-- line: tokens separated by blanks (`a<n>`, `s<symbol number>`, `e<assignment symbol number>`, `(`, `)`, `?`, `:`): what `Equation()` of the model builds with the
     regenerated tables, and what it leaves unread -/
 def precLine (line : String) : String :=
   match (words line).mapM tokOf with
   | none => "bad-op"
   | some ts =>
-    match run C03Prec.chaiCfg (40 * (ts.length + 2)) (.level 0 ts) with
-    | .ok e rest => s!"ok {showE e} rest={" ".intercalate (rest.map showTok)}"
+    match runEq C03Prec.chaiCfg Gen.precAssignSymbols (40 * (ts.length + 2)) ts with
+    | .ok e rest => s!"ok {showQ e} rest={" ".intercalate (rest.map showTok)}"
     | .nomatch => "nomatch"
     | .error => "error"
     | .fuel => "fuel"
